@@ -53,6 +53,24 @@ ASAN_ENV = {'ASAN_OPTIONS': 'detect_leaks=0:exitcode=99:abort_on_error=0:allocat
             'MSAN_OPTIONS': 'exitcode=97', 'TSAN_OPTIONS': 'exitcode=96:report_thread_leaks=0'}
 
 
+def san_head(err, limit=1200):
+    """the informative part of a sanitizer report: the ERROR / WARNING / runtime-error line and the first frames, not the shadow dump"""
+    if isinstance(err, bytes):
+        err = err.decode(errors='replace')
+    lines = err.splitlines()
+    for i, l in enumerate(lines):
+        if 'ERROR: AddressSanitizer' in l or 'runtime error' in l or 'WARNING: ThreadSanitizer' in l or 'MemorySanitizer' in l or 'LeakSanitizer' in l:
+            keep = [l.strip()]
+            for m in lines[i + 1:i + 40]:
+                ms = m.strip()
+                if ms.startswith('#') or ms.startswith('WRITE') or ms.startswith('READ') or 'is located' in ms or ms.startswith('SUMMARY') or ms.startswith('Previous') or ms.startswith('freed by') or ms.startswith('previously allocated'):
+                    keep.append(ms)
+                if len(keep) >= 14:
+                    break
+            return '\n'.join(keep)[:limit]
+    return err[-limit:]
+
+
 class InfraError(Exception):
     """a failure of the checking infrastructure (never a VIOLATION)"""
 
